@@ -255,7 +255,7 @@ def run_case(ex, case):
                 return
         # register()/load() install a definition without evaluating it, so the pull-model
         # oracle applies only when the graph was edited through assignments
-        if op[0] not in ("register", "load") and not oracle_ok(ex, st, f"after unfreeze_tree() and assignment to {L}"):
+        if op[0] not in ("register", "load", "loadn") and not oracle_ok(ex, st, f"after unfreeze_tree() and assignment to {L}"):
             return
     if len(ex.samples) < 2:
         ex.samples.append({"history": list(st.hist)})
